@@ -85,7 +85,7 @@ func textCase(r *rng.R, res *Result) (string, bool, []Violation) {
 	nontriv := false
 	concurrent := 0
 
-	exec := func(i int, op *textOp, local bool) {
+	exec := func(i int, op *textOp, local bool, idx ...int) {
 		rp := reps[i]
 		var vv time.VersionVector
 		if !local {
@@ -103,6 +103,10 @@ func textCase(r *rng.R, res *Result) (string, bool, []Violation) {
 			vals = append(vals, coqfmt.N(uint64(op.content[k])))
 		}
 		top := coqfmt.App("TEdit", pf, pt, coqfmt.List(vals), ticketCoq(op.tk), textVVCoq(vv))
+		if local && len(idx) == 2 {
+			// the model computes the positions from the indices itself (findNodePos)
+			top = coqfmt.App("TLocal", coqfmt.Nat(idx[0]), coqfmt.Nat(idx[1]), coqfmt.List(vals), ticketCoq(op.tk))
+		}
 		steps = append(steps, coqfmt.Pair(coqfmt.Pair(coqfmt.Pair(coqfmt.Nat(i), top), coqfmt.Bool(err != nil)), coqfmt.List(textChars(rp.txt))))
 		if !rp.txt.CheckWeight() {
 			viol = append(viol, Violation{Kind: "text-index-weight", Detail: fmt.Sprintf("replica %d: index tree weights are inconsistent after %s", i, top)})
@@ -185,7 +189,7 @@ func textCase(r *rng.R, res *Result) (string, bool, []Violation) {
 		op := &textOp{author: i, seq: len(byAuthor[i]) + 1, from: fp, to: tp, content: content, tk: tk, vv: rp.vv.DeepCopy()}
 		ops = append(ops, op)
 		byAuthor[i] = append(byAuthor[i], op)
-		exec(i, op, true)
+		exec(i, op, true, from, to)
 		rp.delivered[i]++
 		if to > from {
 			res.count("step.local-delete")
